@@ -19,6 +19,7 @@ def main(argv=None) -> int:
     ap.add_argument("--replay", default=None)
     args = ap.parse_args(argv)
     logging.disable(logging.CRITICAL)
+    sys.setrecursionlimit(20000)  # deep expression trees (nested boosts) in sympy's printers and doit()
     pid = args.pid.upper()
     try:
         mod = importlib.import_module(f"vf.props.{pid.lower()}")
